@@ -217,10 +217,10 @@ impl Env {
             values: &HashMap<&String, String>,
         ) -> Result<EnvKey, Error> {
             Ok(match envkey {
-                EnvKey::Single(key) => EnvKey::Single(expand(key, values, IfMissing::Ignore)?),
+                EnvKey::Single(key) => EnvKey::Single(expand(key, values, IfMissing::Defer)?),
                 EnvKey::List(keys) => EnvKey::List(
                     keys.iter()
-                        .map(|x| expand(x, values, IfMissing::Ignore))
+                        .map(|x| expand(x, values, IfMissing::Defer))
                         .collect::<Result<_, _>>()?,
                 ),
             })
